@@ -63,6 +63,9 @@ func initTemplates(config Config, apiRefCollector *common.APIReferenceCollector)
 			"formatValue": func(destinationType ast.Type, value any) string {
 				panic("formatValue() needs to be overridden by a jenny")
 			},
+			"formatTypedValue": func(destinationType ast.Type, value any) string {
+				panic("formatTypedValue() needs to be overridden by a jenny")
+			},
 		}),
 		template.Funcs(template.FuncMap{
 			"maybeAsPointer": func(intoType ast.Type, variableName string) string {
